@@ -65,6 +65,8 @@ def mk_tape(r, mode, scale=1.0, zero=True, P=None):
     kmax = max(1, int(r.choice([1, 2, 3, 5]) * unit * scale))
     kmin = r.choice([0, 0, 1]) if zero else 1
     t = {"fam": "lat", "q": q, "kmin": kmin, "kmax": kmax, "seed": seed}
+    if P is not None and P.get("int_samples") and r.random() < P["int_samples"]:
+        t["ints"] = True       # integral values are returned as Python ints (e.g. Deterministic(2))
     if P is not None and r.random() < P["tdep"]:
         t["tdep"] = r.choice([2, 3])
     return t
@@ -95,6 +97,7 @@ def gen_spec(r, P):
         pm = list(range(npr)) + [r.randrange(npr) for _ in range(k - npr)]
         r.shuffle(pm)
         S["prio"] = {c: p for c, p in zip(classes, pm)}
+        S["prio_order"] = r.sample(classes, k)     # key order of the priority mapping handed to create_network
         if F("preempt"):
             S["preempt"] = [r.choice(P["preempt_opts"]) for _ in range(n)]
     nprio = len(set(S["prio"].values())) if S["prio"] else 1
@@ -142,6 +145,12 @@ def gen_spec(r, P):
             servers.append({"k": "int", "c": 0})
         else:
             servers.append({"k": "int", "c": r.choice([1, 1, 2, 3])})
+    # the same Schedule object may legitimately be given to several nodes of one network
+    sch = [i for i, x in enumerate(servers) if x["k"] == "sched"]
+    if len(sch) >= 2 and r.random() < 0.35:
+        a, b = sorted(r.sample(sch, 2))
+        servers[b] = dict(servers[a])
+        servers[b]["same_as"] = a
     S["servers"] = servers
     S["ps"] = ps
     S["ps_thr"] = [r.choice([1, 1, 2, 3]) if ps[i] else 1 for i in range(n)]
@@ -367,10 +376,34 @@ def can_self_loop(S, j):
 ALL_RULES = ("KF-A", "KF-B", "KF-C", "KF-D", "KF-E")
 
 
+def normalise_shared(S):
+    """A node whose schedule is the same object as another node's has, by construction, the same timetable."""
+    srv = S["servers"]
+    for b, x in enumerate(srv):
+        a = x.get("same_as")
+        if a is not None:
+            if 0 <= a < b and srv[a]["k"] == "sched" and srv[a].get("same_as") is None:
+                srv[b] = dict(srv[a], same_as=a)
+            else:
+                x.pop("same_as")
+    return S
+
+
+def reroute_sites(S):
+    out = []
+    for j, s in enumerate(S["servers"], 1):
+        if s["k"] == "sched" and s["pre"] == "reroute":
+            out.append(("s", j))
+        if S.get("preempt") and S["preempt"][j - 1] == "reroute":
+            out.append(("p", j))
+    return out
+
+
 def sanitize(S, rules=ALL_RULES):
     """Steer a spec away from the feature conjunctions of OPEN known findings (known_findings.json);
     each rule here corresponds to one open entry, whose pinned reproducer is replayed by every run.
     A property whose own clauses are not affected by a finding may switch that rule off (profiles.py)."""
+    normalise_shared(S)
     # KF-C: a processor-sharing node whose customers can be blocked (or that customers are blocked into)
     if "KF-C" in rules and any(S["ps"]):
         S["qcap"] = [INF] * S["n"]
@@ -400,6 +433,23 @@ def sanitize(S, rules=ALL_RULES):
         for j in range(1, S["n"] + 1):
             if S["preempt"][j - 1] == "reroute" and can_self_loop(S, j):
                 S["preempt"][j - 1] = "restart"
+    if "KF-B" in rules:
+        # a Schedule object shared by two nodes puts the option on both of them
+        for x in S["servers"]:
+            if x.get("same_as") is not None and S["servers"][x["same_as"]].get("pre") == "reroute":
+                S["servers"][x["same_as"]]["pre"] = "restart"
+        normalise_shared(S)
+        # ... or back to it through a chain of pre-emptive reroutes within one event: keep at most one 'reroute' site
+        for kind, j in reroute_sites(S)[1:]:
+            if kind == "s":
+                for x in S["servers"]:
+                    if x is S["servers"][j - 1] or x.get("same_as") == j - 1:
+                        x["pre"] = "restart"
+                if S["servers"][j - 1].get("same_as") is not None:
+                    S["servers"][S["servers"][j - 1]["same_as"]]["pre"] = "restart"
+            else:
+                S["preempt"][j - 1] = "restart"
+    normalise_shared(S)
     return S
 
 
@@ -442,6 +492,8 @@ def features(S):
         sj = S["servers"][j - 1]
         if ((sj["k"] == "sched" and sj["pre"] == "reroute") or (S["preempt"] and S["preempt"][j - 1] == "reroute")) and can_self_loop(S, j):
             f.add("reroute-to-self")
+    if len(set(j for _, j in reroute_sites(S))) >= 2 or len(reroute_sites(S)) >= 2:
+        f.add("reroute-to-self")      # a chain of pre-emptive reroutes can lead back to the node within one event
     if S["syscap"] != INF:
         f.add("syscap")
     for c, rt in S["routing"].items():
